@@ -108,7 +108,7 @@ func (stageComp) Corpus() [][]string {
 		{"base ?", "recover 0", "prepare a 3 0", "cut 2 recv a - - 3 b1.2.3 0 3 1.2.3 0", "observe", "recover 0", "settle 0", "observe"},
 		{"base ?", "recover 0", "prepare a 3 0", "recv a - - 3 b1.2.3 0 3 1.2.3 0", "process a 0", "cut 2 finh a 0", "observe", "recover 0", "settle 0", "observe", "status a 0 0"},
 		// the stray cleaner and a stale partial of a NEW version of a name whose earlier delivery is known only from the log
-		{"base ?", "oldlog w.nc - b164.109.153.172.239.246.250.111 8 -90002", "recover 0", "prepare w.nc 2 14", "recv w.nc - - 2 b90.244 0 1 90 15",
+		{"base ?", "oldlog w.nc - b164.109.153.172.239.246.250.111 8 -260002", "recover 0", "prepare w.nc 2 14", "recv w.nc - - 2 b90.244 0 1 90 15",
 			"chtime w.nc part -400000", "observe", "cleanstrays 16", "observe", "scan"},
 		// a failed new version of such a name polled with a fresh and then with an old reference time
 		{"base ?", "oldlog y/z - b89 1 -260001", "recover 0", "prepare y/z 5 12", "recv y/z - - 5 b246.209.114.226.173 0 5 246.209.114.226.173 13",
